@@ -95,7 +95,7 @@ func genScriptCase(r *Rng, feat map[string]int) scriptCase {
 	// `with` and sloppy function-in-block are exercised in separate programs, and `with` never
 	// together with keep-names (their interactions are recorded findings, replayed from the corpus)
 	g.noWith = r.Bool() || opts.KeepNames // (inside with, only names that do not pin a nested symbol are referenced: recorded findings)
-	g.noFnInBlock = false                 // (since 6412f3d a block function may be referenced inside with)
+	g.noFnInBlock = !g.noWith             // a sloppy block function referenced inside with: recorded finding (residue of 6412f3d)
 	g.evalSibs = r.Chance(30)
 	sc.src, sc.top = g.script(r.Range(3, 7))
 	sc.opts = opts
@@ -139,12 +139,18 @@ func fixedScriptCorpus() []scriptCase {
 		{kind: "script", scenario: "regression-with-pinned-nested-name-captured-by-numbered-name",
 			src:  progPrelude + globalsPrelude() + "(function f1() {\n  var e2 = \"outer\";\n  with ({}) {\n    (function (e) { $p(\"r\", e2, typeof e); })(\"param\");\n  }\n})();\n",
 			opts: api.TransformOptions{Loader: api.LoaderJS, Format: api.FormatIIFE, LogLevel: api.LogLevelSilent}, optDesc: "format=iife"},
-		{kind: "script", scenario: "var-in-with-merged-with-parameter-is-renamed",
+		{kind: "script", scenario: "regression-var-in-with-merged-with-parameter-is-renamed",
 			src:  progPrelude + globalsPrelude() + "(function (x2) { with ({ x2: 1 }) { var x2 = 2; } $p(\"r\", x2); })(\"p\");\n",
 			opts: api.TransformOptions{Loader: api.LoaderJS, LogLevel: api.LogLevelSilent}, optDesc: "(defaults)"},
 		{kind: "script", scenario: "regression-minify-syntax-drops-var-after-hoisted-block-function",
 			src:  progPrelude + globalsPrelude() + "{ function x1() {} }\n{ { var x1 = \"d18\"; } }\n$p(\"r\", typeof x1);\n",
 			opts: api.TransformOptions{Loader: api.LoaderJS, MinifySyntax: true, Format: api.FormatIIFE, LogLevel: api.LogLevelSilent}, optDesc: "minify-syntax format=iife"},
+		{kind: "script", scenario: "annexb-block-function-over-parameter-redeclared-by-var",
+			src:  progPrelude + globalsPrelude() + "$p(\"r\", (function (a1) { { function a1() {} } var a1; return typeof a1; })(\"p\"));\n",
+			opts: api.TransformOptions{Loader: api.LoaderJS, LogLevel: api.LogLevelSilent}, optDesc: "(defaults)"},
+		{kind: "script", scenario: "block-function-kept-for-with-but-hoisted-var-renamed",
+			src:  progPrelude + globalsPrelude() + "{ function y1() {} with ({}) { y1; } }\n$p(\"r\", typeof y1);\nvar y1 = 1;\n",
+			opts: api.TransformOptions{Loader: api.LoaderJS, MinifyIdentifiers: true, Format: api.FormatIIFE, LogLevel: api.LogLevelSilent}, optDesc: "minify-identifiers format=iife"},
 		{kind: "script", scenario: "with-object-captures-minified-keep-names-helper",
 			src:  progPrelude + globalsPrelude() + "with ({ a: 1, b: 1, c: 1, d: 1, e: 1, f: 1, g: 1, h: 1, i: 1, j: 1, k: 1, l: 1, m: 1, n: 1, o: 1, p: 1, q: 1, r: 1, s: 1, t: 1, u: 1, v: 1, w: 1, x: 1, y: 1, z: 1 }) {\n  class K {}\n  $p(\"r\", typeof K);\n}\n",
 			opts: api.TransformOptions{Loader: api.LoaderJS, KeepNames: true, MinifyIdentifiers: true, LogLevel: api.LogLevelSilent}, optDesc: "keep-names minify-identifiers"},
